@@ -270,10 +270,11 @@ def get_facts(repo=None):
         if os.path.exists(final):
             shutil.rmtree(final)
         os.rename(tmp, final)
-        # keep the cache small: drop all but the 6 newest entries
+        # keep the cache small: drop all but the 48 newest entries (about 8 MB each); entries of other trees that are being
+        # analysed concurrently (matrix runs over scratch copies) must survive until their checks are done
         ents = sorted((os.path.getmtime(os.path.join(CACHE, d)), d) for d in os.listdir(CACHE)
                       if os.path.isdir(os.path.join(CACHE, d)) and not d.startswith('tmp-'))
-        for _, d in ents[:-6]:
+        for _, d in ents[:-48]:
             shutil.rmtree(os.path.join(CACHE, d), ignore_errors=True)
         return final
     finally:
